@@ -64,32 +64,52 @@ class QSim:
                     j["zero_seen"] = True
 
     # ---------------------------------------------------------------- actors
-    async def _consumer(self, c):
+    async def _block(self, c, depth):
         q = self.q
-        c["state"] = "waiting"
-        try:
-            async with q as item:
-                c["state"] = "inside"
-                c["item"] = item
-                self.taken += 1
-                self.ev("enter", c["label"], item)
-                if item in self.items_seen:
-                    self.violate("item_twice", f"item {item} handed out twice")
-                self.items_seen.append(item)
-                try:
-                    for g in range(c["gates"]):
-                        fut = self.loop.create_future()
-                        self.gates[("b", c["label"], g)] = fut
-                        await fut
-                    if c.get("end") == "x":
-                        self.stats["fault:body_raises"] += 1
-                        raise BodyError(c["label"])
-                finally:
-                    if not self.torn:
-                        self.exits += 1
-                        self.ev("exit", c["label"])
+        c["waiting"] = True
+        async with q as item:
+            c["waiting"] = False
+            c["state"] = "inside"
+            c["item"] = item
+            self.taken += 1
+            self.ev("enter", c["label"], item, depth)
+            if item in self.items_seen:
+                self.violate("item_twice", f"item {item} handed out twice")
+            self.items_seen.append(item)
+            try:
+                for g in range(c["gates"]):
+                    fut = self.loop.create_future()
+                    self.gates[("b", c["label"], g + 10 * depth)] = fut
+                    await fut
+                if depth == 0 and c.get("nest"):
+                    # the same task handles a second item of the same queue inside its block
+                    self.stats["fault:nested_block"] += 1
+                    await self._block(c, 1)
+                if depth == 0 and c.get("manual") and not q.empty():
+                    it2 = q.get_nowait()
+                    self.taken += 1
+                    self.items_seen.append(it2)
+                    self.ev("manual_get", c["label"], it2)
+                    self.stats["fault:manual_get_inside_block"] += 1
+                    q.item_processed()
+                    self.exits += 1
+                    self._zero_check()
+                if depth == 0 and c.get("end") == "x":
+                    self.stats["fault:body_raises"] += 1
+                    raise BodyError(c["label"])
+            finally:
+                if not self.torn:
+                    self.exits += 1
+                    self.ev("exit", c["label"], depth)
+                    if depth == 0:
                         c["state"] = "exiting"
-                        self._zero_check()
+                    self._zero_check()
+
+    async def _consumer(self, c):
+        c["state"] = "waiting"
+        c["waiting"] = False
+        try:
+            await self._block(c, 0)
         except CancelledError:
             if not self.torn:
                 c["outcome"] = "cancelled"
@@ -107,6 +127,7 @@ class QSim:
             c["outcome"] = "done"
         finally:
             c["state"] = "over"
+            c["waiting"] = False
 
     async def _joiner(self, j):
         j["state"] = "active"
@@ -154,14 +175,15 @@ class QSim:
             lab = st["c"]
             if lab in self.consumers:
                 return
-            c = {"label": lab, "gates": st.get("g", 1), "end": st.get("end"), "state": "new", "outcome": None}
+            c = {"label": lab, "gates": st.get("g", 1), "end": st.get("end"), "state": "new", "outcome": None,
+                 "nest": st.get("nest"), "manual": st.get("manual"), "waiting": False}
             self.consumers[lab] = c
             c["task"] = self.loop.create_task(self._consumer(c))
         elif op == "cancel":
             c = self.consumers.get(st["c"])
             if c is None or c["task"].done() or c["state"] in ("new", "exiting", "over"):
                 return
-            if c["state"] == "waiting" and self.q.qsize() > 0:
+            if c.get("waiting") and self.q.qsize() > 0:
                 self.stats["fault:cancelled_as_item_arrives"] += 1
             c["task"].cancel()
             self.ev("cancel", st["c"], c["state"])
@@ -233,7 +255,7 @@ class QSim:
             if j["state"] == "active" and self.unfinished() == 0:
                 self.violate("join_stuck", "idle: nothing unfinished, join() still blocked")
         # an item in the queue with a consumer waiting (lost wake-up)
-        if self.q.qsize() > 0 and any(c["state"] == "waiting" for c in self.consumers.values()):
+        if self.q.qsize() > 0 and any(c.get("waiting") for c in self.consumers.values()):
             self.violate("lost_wakeup", "idle: item in the queue while a consumer is waiting in __aenter__")
 
     def execute(self, source=None):
@@ -267,10 +289,13 @@ class QSim:
                 for _ in range(200):
                     self.run_to_idle()
                     keys = [k for k, f in self.gates.items() if not f.done()]
-                    if not keys:
+                    nested_waiting = [c for c in self.consumers.values() if c.get("waiting") and c["state"] == "inside"]
+                    if not keys and not (nested_waiting and self.q.empty()):
                         break
                     for k in keys:
                         self.gates.pop(k).set_result(None)
+                    if nested_waiting and self.q.empty():
+                        self.exec_step({"op": "put"})      # feed a consumer that waits for its nested item
                 self.check_idle()
                 n_left = self.q.qsize() + sum(1 for p in self.putters if p["state"] == "blocked")
                 for i in range(n_left):
@@ -320,6 +345,11 @@ class QGen:
                 st = {"op": "consumer", "c": self.clabel, "g": rng.choice([0, 1, 1, 2])}
                 if rng.random() < 0.15:
                     st["end"] = "x"
+                r = rng.random()
+                if r < 0.12:
+                    st["nest"] = 1
+                elif r < 0.24:
+                    st["manual"] = 1
                 return st
             if k == "cancel":
                 live = [c["label"] for c in sim.consumers.values() if c["state"] in ("waiting", "inside")]
@@ -329,7 +359,7 @@ class QGen:
                 keys = [key for key, f in sim.gates.items() if not f.done()]
                 if keys:
                     key = rng.choice(keys)
-                    st = {"op": "gate", "c": key[1], "g": key[2]}
+                    st = {"op": "gate", "c": key[1], "g": key[2]}   # (g >= 10: gate of a nested block)
                     if k == "gate_x":
                         st["how"] = "x"
                     return st
